@@ -103,6 +103,9 @@ func init() {
 			conds = append(conds, mkEq(t, mkInt(k)))
 		}
 		m.assume(mkAnd(mkLe(mkInt(0), t), mkLt(t, mkInt(n))))
+		// agentF1: every value of a fresh choice variable is feasible; no solver queries needed
+		m.allFeasible = true
+		defer func() { m.allFeasible = false }()
 		return int(m.decideN(conds))
 	}
 	zzAPI["Assume"] = func(fr *frame, a []value) value {
